@@ -170,7 +170,7 @@ fn check_round_trip(ctx: &mut Ctx, v: &Response<'static>, wire: &[u8], rest: &[u
 }
 
 fn run_c03(ctx: &mut Ctx, rng: &mut Rng, thorough: bool, shard: usize, shards: usize, adversarial: bool) {
-    let n = if thorough { 600_000 } else { 60_000 } / shards;
+    let n = vh_proto::srcdict::scaled(if thorough { 600_000 } else { 60_000 } / shards);
     let class = if adversarial { "literal-interference" } else { "fidelity" };
     for i in 0..n {
         let kind = (i * shards + shard) % KINDS.len();
@@ -224,7 +224,7 @@ fn run_c03(ctx: &mut Ctx, rng: &mut Rng, thorough: bool, shard: usize, shards: u
 }
 
 fn run_c12(ctx: &mut Ctx, rng: &mut Rng, thorough: bool, shard: usize, shards: usize) {
-    let n = if thorough { 300_000 } else { 30_000 } / shards;
+    let n = vh_proto::srcdict::scaled(if thorough { 300_000 } else { 30_000 } / shards);
     for i in 0..n {
         let kind = (i * shards + shard) % KINDS.len();
         let cfg = cfg_for(i, false, thorough);
@@ -608,7 +608,7 @@ fn run_c16(ctx: &mut Ctx, rng: &mut Rng, thorough: bool, shard: usize, shards: u
         }
     }
     // random orders (the builder emits attributes in call order)
-    let n = if thorough { 20_000 } else { 2_000 } / shards;
+    let n = vh_proto::srcdict::scaled(if thorough { 20_000 } else { 2_000 } / shards);
     for _ in 0..n {
         let k = rng.range(1, 6) as usize;
         let v: Vec<usize> = (0..k).map(|_| rng.usize(11)).collect();
@@ -727,6 +727,17 @@ fn main() {
                     "C12" => run_c12(&mut ctx, &mut rng, thorough, shard, shards),
                     "C16" => run_c16(&mut ctx, &mut rng, thorough, shard, shards),
                     _ => {}
+                }
+                // directed passes: one per constant of /repo's sources that the baseline does not have
+                for (fo, _name) in vh_proto::srcdict::foci() {
+                    vh_proto::srcdict::with_focus(fo, || match prop.as_str() {
+                        "C03" => run_c03(&mut ctx, &mut rng, thorough, shard, shards, false),
+                        "C08" => run_c03(&mut ctx, &mut rng, thorough, shard, shards, true),
+                        "C12" => run_c12(&mut ctx, &mut rng, thorough, shard, shards),
+                        "C16" => run_c16(&mut ctx, &mut rng, thorough, shard, shards),
+                        _ => {}
+                    });
+                    ctx.log.count("source-constant-pass");
                 }
                 ctx.flush();
                 total.lock().unwrap().merge(ctx.log);
